@@ -47,6 +47,12 @@ const EXCL_DEFERRED_SYNC_THROWER: &str = "excluded-deferred-sync-thrower";
 /// Switch of exclusion (a) and of its structural backstop (a'). C17-a is repaired in /repo
 /// (known.d: status fixed), so both are off and these shapes are generated and checked again.
 const EXCLUDE_DEFERRED_SYNC_THROWER: bool = false;
+/// (e) C17-e (surfaced when (a) was switched off): no deferred synchronous thrower as in (a) that
+/// has an importer waiting for it (GatherAvailableAncestors empties [[AsyncParentModules]], so the
+/// rejection does not reach the importers). Deferred throwers nobody waits for stay in.
+const EXCL_DEFERRED_THROWER_WITH_IMPORTER: &str = "excluded-deferred-sync-thrower-with-waiting-importer";
+/// Switch of exclusion (e) and of its structural backstop (e') for import() walks.
+const EXCLUDE_DEFERRED_THROWER_WITH_IMPORTER: bool = true;
 /// (b) C17-b: no cycle whose non-root asynchronous member waits for a different number of
 /// asynchronous dependencies than the cycle root.
 const EXCL_CYCLE_PENDING_MISMATCH: &str = "excluded-cycle-pending-mismatch";
@@ -59,6 +65,8 @@ const EXCL_DYN_IMPORT_OF_ASYNC: &str = "excluded-dyn-import-of-async-evaluating-
 /// top-level-await module in a case that also has (a') a throwing module without top-level await
 /// above a top-level-await module, or (b') a cycle with a member above (or with) top-level await.
 const EXCL_DYN_WITH_DEFERRED_THROWER: &str = "excluded-import()-with-sync-thrower-above-tla";
+/// (e'): as (a'), but only when the throwing module has a static importer (other than itself) in the live graph
+const EXCL_DYN_WITH_IMPORTED_DEFERRED_THROWER: &str = "excluded-import()-with-imported-sync-thrower-above-tla";
 const EXCL_DYN_WITH_ASYNC_CYCLE: &str = "excluded-import()-with-cycle-above-tla";
 
 // ---------------------------------------------------------------------------------------
@@ -265,23 +273,26 @@ impl PCase {
         }
         None
     }
-    /// (importers, a', b'): the modules whose import() target reaches a top-level-await module, and,
+    /// (importers, a', b', e'): the modules whose import() target reaches a top-level-await module, and,
     /// if there are any, whether the live graph has (a') a throwing module without top-level await
-    /// above a top-level-await module, (b') a cycle with a member above (or with) top-level await
-    fn import_walk_shapes(&self) -> (Vec<usize>, bool, bool) {
+    /// above a top-level-await module, (b') a cycle with a member above (or with) top-level await,
+    /// (e') a module as in (a') that another live module imports statically
+    fn import_walk_shapes(&self) -> (Vec<usize>, bool, bool, bool) {
         let n = self.n();
         let reach = self.reach();
         let reaches_tla = |x: usize| (0..n).any(|t| self.mods[t].tla && (t == x || reach[x][t]));
         let risky: Vec<usize> = (0..n).filter(|i| self.mods[*i].dyn_targets.iter().any(|x| reaches_tla(*x))).collect();
         if risky.is_empty() {
-            return (risky, false, false);
+            return (risky, false, false, false);
         }
         let mut roots = self.entries.clone();
         roots.extend(self.mods.iter().flat_map(|m| m.dyn_targets.iter().copied()));
         let live = self.closure(&roots);
-        let a2 = live.iter().any(|t| self.mods[*t].throws && !self.mods[*t].tla && reaches_tla(*t));
+        let a_shape = |t: usize| self.mods[t].throws && !self.mods[t].tla && reaches_tla(t);
+        let a2 = live.iter().any(|t| a_shape(*t));
+        let e2 = live.iter().any(|t| a_shape(*t) && live.iter().any(|p| p != t && self.mods[*p].requests.contains(t)));
         let b2 = live.iter().any(|m| reaches_tla(*m) && (0..n).any(|o| o != *m && reach[*m][o] && reach[o][*m]));
-        (risky, a2, b2)
+        (risky, a2, b2, e2)
     }
     /// the static closure of a set of modules (including them)
     fn closure(&self, roots: &[usize]) -> BTreeSet<usize> {
@@ -321,6 +332,8 @@ struct ModelOut {
     /// finding (a): a module without top-level await whose execution was deferred behind an
     /// asynchronous dependency and whose body throws when it is finally run
     deferred_sync_thrower: Option<usize>,
+    /// finding (e): the first such module that an asynchronously evaluated importer waits for
+    deferred_thrower_with_importer: Option<usize>,
     /// finding (b): (root, member): an asynchronous non-root member of a cycle that waits for
     /// k > 0 asynchronous dependencies while the cycle root waits for a different number, and the
     /// dependencies fulfil (a rejection propagates without reading the count)
@@ -453,8 +466,13 @@ impl Sim<'_> {
             if own > 0 && stored != own && self.out.cycle_pending_mismatch.is_none() && ((stored > own && errs == 0) || (stored < own && own - errs >= stored)) {
                 self.out.cycle_pending_mismatch = Some((self.root[m], m));
             }
-            if !dep_err && pm.throws && !pm.tla && self.pending[m] > 0 && self.out.deferred_sync_thrower.is_none() {
-                self.out.deferred_sync_thrower = Some(m);
+            if !dep_err && pm.throws && !pm.tla && self.pending[m] > 0 {
+                if self.out.deferred_sync_thrower.is_none() {
+                    self.out.deferred_sync_thrower = Some(m);
+                }
+                if self.out.deferred_thrower_with_importer.is_none() && self.async_deps.iter().any(|d| d.contains(&m)) {
+                    self.out.deferred_thrower_with_importer = Some(m);
+                }
             }
             self.status[m] = Stt::Evaluated;
             self.order[m] = None;
@@ -809,10 +827,13 @@ fn check(rc: &RCase, min_modules: usize) -> Checked {
     let flag_d = mo.as_ref().and_then(|m| pc.dyn_import_of_async(m));
     // the class of the case, used in failure signatures
     let class = match &mo {
+        Some(m) if m.deferred_thrower_with_importer.is_some() && m.cycle_pending_mismatch.is_some() => "deferred-sync-thrower-with-waiting-importer+cycle-pending-mismatch".to_string(),
+        Some(m) if m.deferred_thrower_with_importer.is_some() => "deferred-sync-thrower-with-waiting-importer".to_string(),
         Some(m) if m.deferred_sync_thrower.is_some() && m.cycle_pending_mismatch.is_some() => "deferred-sync-thrower+cycle-pending-mismatch".to_string(),
         Some(m) if m.deferred_sync_thrower.is_some() => "deferred-sync-thrower".to_string(),
         Some(m) if m.cycle_pending_mismatch.is_some() => "cycle-pending-mismatch".to_string(),
         _ if flag_d.is_some() => "dyn-import-of-async-evaluating-module".to_string(),
+        _ if pc.graph_ok && pc.import_walk_shapes().3 => "import()-walk+imported-sync-thrower-above-tla".to_string(),
         _ if pc.graph_ok && pc.import_walk_shapes().1 => "import()-walk+sync-thrower-above-tla".to_string(),
         _ if pc.graph_ok && pc.import_walk_shapes().2 => "import()-walk+cycle-above-tla".to_string(),
         _ => match &sh {
@@ -845,6 +866,9 @@ fn check(rc: &RCase, min_modules: usize) -> Checked {
         labels.push(if m.async_seen { "async-evaluation" } else { "sync-evaluation" });
         if m.deferred_sync_thrower.is_some() {
             labels.push("shape-of-finding-a");
+        }
+        if m.deferred_thrower_with_importer.is_some() {
+            labels.push("shape-of-finding-e");
         }
         if m.cycle_pending_mismatch.is_some() {
             labels.push("shape-of-finding-b");
@@ -1144,13 +1168,14 @@ fn apply_exclusions(case: &mut Case, labels: &mut Vec<&'static str>) {
     }
     for _ in 0..4 * modgraph::MAXN {
         let pc = parse_case(&RCase::from_case(case));
-        let (risky, a2, b2) = pc.import_walk_shapes();
+        let (risky, a2, b2, e2) = pc.import_walk_shapes();
         let a2 = a2 && EXCLUDE_DEFERRED_SYNC_THROWER;
-        if a2 || b2 {
+        let e2 = e2 && !a2 && EXCLUDE_DEFERRED_THROWER_WITH_IMPORTER;
+        if a2 || b2 || e2 {
             for i in risky {
                 case.mods[i].dynimp = None;
             }
-            for (on, l) in [(a2, EXCL_DYN_WITH_DEFERRED_THROWER), (b2, EXCL_DYN_WITH_ASYNC_CYCLE)] {
+            for (on, l) in [(a2, EXCL_DYN_WITH_DEFERRED_THROWER), (b2, EXCL_DYN_WITH_ASYNC_CYCLE), (e2, EXCL_DYN_WITH_IMPORTED_DEFERRED_THROWER)] {
                 if on && !labels.contains(&l) {
                     labels.push(l);
                 }
@@ -1163,6 +1188,14 @@ fn apply_exclusions(case: &mut Case, labels: &mut Vec<&'static str>) {
             case.mods[m].throw = Throw::Never;
             if !labels.contains(&EXCL_DEFERRED_SYNC_THROWER) {
                 labels.push(EXCL_DEFERRED_SYNC_THROWER);
+            }
+            continue;
+        }
+        if let Some(m) = mo.deferred_thrower_with_importer.filter(|_| EXCLUDE_DEFERRED_THROWER_WITH_IMPORTER) {
+            // (e) drop the throw of exactly that module
+            case.mods[m].throw = Throw::Never;
+            if !labels.contains(&EXCL_DEFERRED_THROWER_WITH_IMPORTER) {
+                labels.push(EXCL_DEFERRED_THROWER_WITH_IMPORTER);
             }
             continue;
         }
@@ -1231,7 +1264,7 @@ impl Prop for C17 {
             "V8 (node 20 vm.SourceTextModule, all modules linked up front, shared microtask queue drained by a macrotask between entry evaluations) implements the specification's module evaluation order for graphs with top-level await; graphs without asynchronous evaluation are decided by the reference model as well".into(),
             "the completion time of dynamic import() is host-defined, and so is which modules a later walk still finds unevaluated: cases with import() are decided by the invariants, the entry settlements and the fulfilled/rejected outcome of every import(); the per-module print sequences are compared too and a difference is only labelled (dyn-timing-differs-from-v8)".into(),
             "V8 rejects Evaluate() of an already errored module with that module's own error, the specification with the outcome recorded for its cycle root; when the two differ (members of one cycle failed asynchronously with different errors) the specification decides (label v8-own-error-vs-cycle-root-error)".into(),
-            "generator exclusions for the open findings C17-b..d (labels excluded-*; the exclusion of C17-a, synchronous throwers deferred behind an asynchronous dependency, is switched off since the defect is repaired): cycles whose non-root asynchronous member waits for another number of dependencies than the root; import() of a module that is evaluating asynchronously under somebody else's capability; and, because walks started by import() are not modelled, import() of a module above top-level await in a case that has a cycle above top-level await".into(),
+            "generator exclusions for the open findings C17-b..e (labels excluded-*; the exclusion of C17-a, synchronous throwers deferred behind an asynchronous dependency, is switched off since the defect is repaired; what remains of it is C17-e: such a thrower with an importer waiting for it): cycles whose non-root asynchronous member waits for another number of dependencies than the root; import() of a module that is evaluating asynchronously under somebody else's capability; and, because walks started by import() are not modelled, import() of a module above top-level await in a case that has a cycle above top-level await or a statically imported synchronous thrower above top-level await".into(),
         ]
     }
     fn run_case(&self, _env: &mut Env, stream: &str, index: u64, tape: &[u8]) -> CaseOut {
